@@ -1,2 +1,3 @@
-import MCHap.Model.Comb
+import MCHap.Properties.C04
+import MCHap.Properties.C05
 import MCHap.Properties.C11
